@@ -21,103 +21,137 @@ import (
 // by New + Add and for the stream a real Agent serves over gRPC. The oracles
 // are the same trace predicates (run.go: judge).
 
+// genSize: three draws whatever the outcome, so that a smaller size does not
+// re-interpret the draws that follow (shrinking).
 func genSize(t *rapid.T) int {
-	switch rapid.SampledFrom([]int{0, 0, 0, 0, 0, 0, 0, 1, 1, 1, 2, 2, 3}).Draw(t, "size-class") {
+	class := rapid.SampledFrom([]int{0, 0, 0, 0, 0, 0, 0, 1, 1, 1, 2, 2, 3}).Draw(t, "size-class")
+	near := rapid.Bool().Draw(t, "size-near")
+	switch class {
 	case 0:
-		return rapid.IntRange(1, 8).Draw(t, "n-small")
+		return rapid.IntRange(1, 8).Draw(t, "n")
 	case 1:
-		if rapid.Bool().Draw(t, "n-near") {
-			return rapid.SampledFrom([]int{15, 16, 17, 18, 19, 20, 24, 31, 32, 33, 34}).Draw(t, "n-medium-near")
+		if near {
+			return rapid.SampledFrom([]int{15, 16, 17, 18, 19, 20, 24, 31, 32, 33, 34}).Draw(t, "n")
 		}
-		return rapid.IntRange(9, 40).Draw(t, "n-medium")
+		return rapid.IntRange(9, 40).Draw(t, "n")
 	case 2:
-		if rapid.Bool().Draw(t, "n-near") {
-			return rapid.SampledFrom([]int{48, 62, 63, 64, 65, 66, 80, 96, 100}).Draw(t, "n-large-near")
+		if near {
+			return rapid.SampledFrom([]int{48, 62, 63, 64, 65, 66, 80, 96, 100}).Draw(t, "n")
 		}
-		return rapid.IntRange(41, 100).Draw(t, "n-large")
+		return rapid.IntRange(41, 100).Draw(t, "n")
 	}
-	if rapid.Bool().Draw(t, "n-near") {
-		return rapid.SampledFrom([]int{127, 128, 129, 130, 200, 255, 256, 257, 300}).Draw(t, "n-huge-near")
+	if near {
+		return rapid.SampledFrom([]int{127, 128, 129, 130, 200, 255, 256, 257, 300}).Draw(t, "n")
 	}
-	return rapid.IntRange(101, 300).Draw(t, "n-huge")
+	return rapid.IntRange(101, 300).Draw(t, "n")
 }
 
-// genLayout draws the initial timestamps of n values (in configuration order)
-// and returns the spread (largest minus smallest).
-func genLayout(t *rapid.T, n int, base int64) (ts []int64, name string, spread int64) {
-	ts = make([]int64, n)
-	stride := rapid.SampledFrom([]int64{1, 1, 2, 5, 10, 37, 1000}).Draw(t, "stride")
-	name = rapid.SampledFrom([]string{"shuffled", "desc", "asc", "blocks", "dense", "sparse", "few", "same"}).Draw(t, "layout")
-	idx := make([]int, n)
-	for i := range idx {
-		idx[i] = i
-	}
-	switch name {
+const maxValues = 300
+
+// layout places the initial timestamps of the values on the time axis. Whatever
+// has to be drawn for the configuration as a whole is drawn by genLayout, with
+// a number of draws that does not depend on the number of values; at() makes
+// the per-value draws.
+type layout struct {
+	name   string
+	n      int
+	base   int64
+	stride int64
+	perm   []int // shuffled, blocks: a permutation of 0..maxValues-1
+	block  int   // blocks: values per block
+	few    int64 // few: number of shared timestamps
+	spread int64 // upper bound of (largest - smallest) initial timestamp
+}
+
+func genLayout(t *rapid.T, n int, base int64) *layout {
+	l := &layout{n: n, base: base}
+	l.stride = rapid.SampledFrom([]int64{1, 1, 2, 5, 10, 37, 1000}).Draw(t, "stride")
+	l.name = rapid.SampledFrom([]string{"shuffled", "desc", "asc", "blocks", "dense", "sparse", "few", "same"}).Draw(t, "layout")
+	l.spread = int64(n-1) * l.stride
+	switch l.name {
 	case "same":
+		l.spread = 0
 	case "few":
-		k := rapid.Int64Range(2, 4).Draw(t, "few-k")
-		for i := range ts {
-			ts[i] = rapid.Int64Range(0, k-1).Draw(t, "few-slot") * stride
+		l.few = rapid.Int64Range(2, 4).Draw(t, "few-k")
+		l.spread = (l.few - 1) * l.stride
+	case "shuffled", "blocks":
+		if l.name == "blocks" {
+			l.block = rapid.IntRange(2, 8).Draw(t, "block")
+		} else {
+			l.block = 1
 		}
-	case "asc":
-		for i := range ts {
-			ts[i] = int64(i) * stride
+		idx := make([]int, maxValues)
+		for i := range idx {
+			idx[i] = i
 		}
-	case "desc":
-		for i := range ts {
-			ts[i] = int64(n-1-i) * stride
-		}
-	case "shuffled":
-		perm := rapid.Permutation(idx).Draw(t, "perm")
-		for i := range ts {
-			ts[i] = int64(perm[i]) * stride
-		}
-	case "blocks":
-		g := rapid.IntRange(2, 8).Draw(t, "block")
-		nb := (n + g - 1) / g
-		perm := rapid.Permutation(idx[:nb]).Draw(t, "block-perm")
-		for i := range ts {
-			ts[i] = int64(perm[i/g]) * stride
-		}
-	case "dense":
-		for i := range ts {
-			ts[i] = rapid.Int64Range(0, int64(n)).Draw(t, "dense-t")
+		p := rapid.Permutation(idx).Draw(t, "perm")
+		// keep the first ceil(n/block) entries and replace them by their ranks:
+		// a permutation of 0..nb-1
+		nb := (n + l.block - 1) / l.block
+		l.perm = make([]int, nb)
+		for i := 0; i < nb; i++ {
+			for j := 0; j < nb; j++ {
+				if p[j] < p[i] {
+					l.perm[i]++
+				}
+			}
 		}
 	case "sparse":
-		for i := range ts {
-			ts[i] = rapid.Int64Range(0, int64(n)*stride*4).Draw(t, "sparse-t")
-		}
+		l.spread = int64(n) * l.stride * 4
 	}
-	for i := range ts {
-		if ts[i] > spread {
-			spread = ts[i]
-		}
-		ts[i] += base
+	return l
+}
+
+func (l *layout) at(t *rapid.T, i int) int64 {
+	var off int64
+	switch l.name {
+	case "few":
+		off = rapid.Int64Range(0, l.few-1).Draw(t, "few-slot") * l.stride
+	case "asc":
+		off = int64(i) * l.stride
+	case "desc":
+		off = int64(l.n-1-i) * l.stride
+	case "shuffled", "blocks":
+		off = int64(l.perm[i/l.block]) * l.stride
+	case "dense":
+		off = rapid.Int64Range(0, int64(l.n-1)).Draw(t, "dense-slot") * l.stride
+	case "sparse":
+		off = rapid.Int64Range(0, l.spread).Draw(t, "sparse-t")
 	}
-	return ts, name, spread
+	return l.base + off
 }
 
 type cadence struct{ dmin, dmax int64 }
 
-func genCadence(t *rapid.T, spread int64) cadence {
-	switch rapid.SampledFrom([]int{0, 1, 1, 2, 2, 2, 3, 3, 4, 4, 5}).Draw(t, "cadence-shape") {
+// genCadence draws the timestamp step bounds shared by some of the values.
+// Steps comparable to the distance between neighbouring initial timestamps
+// (stride) or to their whole spread put a re-queued value in the middle of the
+// pending ones; jitter spreads values that start on one timestamp.
+func genCadence(t *rapid.T, stride, spread int64) cadence {
+	switch rapid.SampledFrom([]int{6, 7, 2, 4, 1, 3, 7, 6, 0, 5}).Draw(t, "cadence-shape") {
 	case 0:
 		return cadence{}
 	case 1:
 		p := rapid.Int64Range(1, 4).Draw(t, "period")
 		return cadence{p, p}
-	case 2: // a period comparable to the initial spread: re-queued in the middle of the others
-		p := rapid.Int64Range(1, 2*spread+2).Draw(t, "period-rel")
+	case 2:
+		p := rapid.Int64Range(1, 2*spread+2).Draw(t, "period-spread")
 		return cadence{p, p}
 	case 3:
 		lo := rapid.Int64Range(0, 3).Draw(t, "dmin")
 		return cadence{lo, lo + rapid.Int64Range(1, 4).Draw(t, "dspan")}
 	case 4:
-		lo := rapid.Int64Range(0, spread+1).Draw(t, "dmin-rel")
-		return cadence{lo, lo + rapid.Int64Range(1, spread+1).Draw(t, "dspan-rel")}
+		lo := rapid.Int64Range(0, spread+1).Draw(t, "dmin-spread")
+		return cadence{lo, lo + rapid.Int64Range(1, spread+1).Draw(t, "dspan-spread")}
+	case 5:
+		lo := rapid.Int64Range(0, big).Draw(t, "dmin-wide")
+		return cadence{lo, rapid.Int64Range(lo, big).Draw(t, "dmax-wide")}
+	case 6:
+		p := rapid.Int64Range(1, 40*stride).Draw(t, "period-stride")
+		return cadence{p, p}
 	}
-	lo := rapid.Int64Range(0, big).Draw(t, "dmin-wide")
-	return cadence{lo, rapid.Int64Range(lo, big).Draw(t, "dmax-wide")}
+	lo := rapid.Int64Range(0, 10*stride).Draw(t, "dmin-stride")
+	return cadence{lo, lo + rapid.Int64Range(1, 40*stride).Draw(t, "dspan-stride")}
 }
 
 func genShapedRepeat(t *rapid.T, n int) int32 {
@@ -152,25 +186,47 @@ func genShaped(t *rapid.T) *Scenario {
 	env.hostile = rapid.IntRange(0, 15).Draw(t, "hostile") == 0
 	env.base = rapid.SampledFrom([]int64{0, 0, 3, 1000, big / 2}).Draw(t, "base")
 	n := genSize(t)
-	if n <= 8 {
-		sc.Extra = rapid.IntRange(2, 24).Draw(t, "extra")
-	} else {
-		hi := 4 * n
-		if hi > 600 {
-			hi = 600
+	// length of the prefix pulled beyond the bounded repeats: up to 24, for
+	// larger configurations plus a multiple of the number of values
+	sc.Extra = rapid.IntRange(2, 24).Draw(t, "extra")
+	if k := rapid.SampledFrom([]int{1, 0, 3, 6}).Draw(t, "extra-per-value"); n > 8 {
+		more := k * n
+		if more > 600 {
+			more = 600
 		}
-		sc.Extra = rapid.IntRange(2, hi).Draw(t, "extra-scaled")
+		sc.Extra += more
 	}
-	ts, layout, spread := genLayout(t, n, env.base)
-	sc.Shape = layout
-	pool := rapid.SliceOfN(rapid.Custom(func(t *rapid.T) cadence { return genCadence(t, spread) }), 1, 6).Draw(t, "cadences")
+	splitHow := rapid.SampledFrom([]int{0, 0, 0, 0, 3, 1, 2}).Draw(t, "split-how")
+	splitAt := rapid.IntRange(0, 999).Draw(t, "split-permille")
+	if n >= 2 {
+		switch splitHow {
+		case 1:
+			sc.Split = 1
+		case 2:
+			sc.Split = n - 1
+		case 3:
+			sc.Split = 1 + splitAt*(n-2)/999
+		}
+	}
+	sc.Agent = rapid.IntRange(0, 7).Draw(t, "agent") == 0
+	if s := rapid.Int64Range(1, 1000).Draw(t, "agent-seed"); sc.Agent && sc.Seed == 0 {
+		sc.Seed = s // outside the bubble nothing may depend on the clock
+	}
+	lay := genLayout(t, n, env.base)
+	sc.Shape = lay.name
+	pool := rapid.SliceOfN(rapid.Custom(func(t *rapid.T) cadence { return genCadence(t, lay.stride, lay.spread) }), 1, 6).Draw(t, "cadences")
 	negOnce := rapid.IntRange(0, 19).Draw(t, "allow-negative-once") == 0
+	// An unbounded value that never advances its timestamp starves everything
+	// behind it (inherent in timestamp order). With hundreds of values one of
+	// them nearly always would: allowed in one configuration out of ten only.
+	starver := rapid.IntRange(0, 9).Draw(t, "allow-starver") == 0
 
 	// payloads: drawn per value for up to 24 values, from up to 8 templates beyond
 	var templates []Val
 	if n > 24 {
 		templates = rapid.SliceOfN(rapid.Custom(func(t *rapid.T) Val { return genValWith(t, env, func(*Val) {}) }), 1, 8).Draw(t, "templates")
 	}
+	// the values come last: one value less is a shorter sequence of draws
 	sc.Values = make([]Val, n)
 	for i := 0; i < n; i++ {
 		var v Val
@@ -183,40 +239,30 @@ func genShaped(t *rapid.T) *Scenario {
 			v.Repeat = genShapedRepeat(t, n)
 		}
 		v.Seed = genSeed(t, "vseed")
+		at := lay.at(t, i)
 		switch {
 		case v.TS != nil:
 			// a hostile payload brought its own broken timestamp block
 			c := *v.TS
 			if c.T == 0 {
-				c.T = ts[i]
+				c.T = at
 			}
 			v.TS = &c
 		case rapid.IntRange(0, 15).Draw(t, "ts-unset") == 0:
 		default:
 			c := pool[rapid.IntRange(0, len(pool)-1).Draw(t, "cadence")]
-			v.TS = &TS{T: ts[i], DMin: c.dmin, DMax: c.dmax}
+			v.TS = &TS{T: at, DMin: c.dmin, DMax: c.dmax}
 			if negOnce && v.Repeat == 1 && rapid.IntRange(0, 7).Draw(t, "t-neg") == 0 {
 				// a value emitted once is never advanced; its timestamp may be anything
 				v.TS.T = -rapid.Int64Range(1, big).Draw(t, "t-negative")
 			}
 		}
+		if v.Repeat == 0 && !starver {
+			if _, dmax := v.deltas(); dmax == 0 {
+				v.Repeat = 3
+			}
+		}
 		sc.Values[i] = v
-	}
-	if n >= 2 && rapid.IntRange(0, 2).Draw(t, "split") == 0 {
-		switch rapid.IntRange(0, 3).Draw(t, "split-how") {
-		case 0:
-			sc.Split = 1
-		case 1:
-			sc.Split = n - 1
-		default:
-			sc.Split = rapid.IntRange(1, n-1).Draw(t, "split-at")
-		}
-	}
-	if rapid.IntRange(0, 7).Draw(t, "agent") == 0 {
-		sc.Agent = true
-		if sc.Seed == 0 {
-			sc.Seed = rapid.Int64Range(1, 1000).Draw(t, "agent-seed")
-		}
 	}
 	return sc
 }
